@@ -110,7 +110,14 @@ def result_unmodified(repo: Repo, rep):
                 stack += [x.left, x.right]
             else:
                 parts.append(x)
-        payload = [x for x in parts if not _only_bom(x)]
+        def _bom_local(x) -> bool:
+            # a local that holds the mark or nothing on every path (`if has_bom: prefix = codecs.BOM_UTF8` / `else: prefix = b""`)
+            if not isinstance(x, ast.Name):
+                return False
+            vals = [def_value(d_, x.id) for d_ in reaching_defs(wcfg, n, x.id)]
+            return bool(vals) and all(v_ is not None and _only_bom(v_) for v_ in vals)
+
+        payload = [x for x in parts if not _only_bom(x) and not _bom_local(x)]
         base = payload[0] if len(payload) == 1 else a
         if isinstance(base, ast.Call) and isinstance(base.func, ast.Attribute) and base.func.attr == "encode":
             base = base.func.value
@@ -186,6 +193,69 @@ def one_mode(repo: Repo, rep):
             rep.ok("R-ONE-MODE", cf, c, f"path of the edited file: {t}")
         else:
             rep.violation("R-ONE-MODE", cf, c, f"{cf.qualname} formats with path `{t or '<missing>'}`, not the path of the file being edited: black's configuration is looked up elsewhere", construct=f"{cf.qualname}:path")
+
+
+def _conversion_polarity(repo: Repo, m, conv):
+    """False: the value itself (int / bool / identity); True: its negation; None: something else"""
+    if isinstance(conv, ast.Name) and conv.id in ("int", "bool") and conv.id not in m.funcs:
+        return False
+    body = None
+    if isinstance(conv, ast.Lambda) and len(conv.args.args) == 1:
+        p, body = conv.args.args[0].arg, conv.body
+    elif isinstance(conv, ast.Name) and conv.id in m.funcs and m.funcs[conv.id].cls is None:
+        g = m.funcs[conv.id]
+        st = [x for x in g.node.body if not (isinstance(x, ast.Expr) and isinstance(x.value, ast.Constant))]
+        if len(g.params) == 1 and len(st) == 1 and isinstance(st[0], ast.Return) and st[0].value is not None:
+            p, body = g.params[0], st[0].value
+    if body is None:
+        return None
+    neg = False
+    if isinstance(body, ast.UnaryOp) and isinstance(body.op, ast.Not):
+        neg, body = True, body.operand
+    if isinstance(body, ast.Call) and norm(body.func) in ("int", "bool") and len(body.args) == 1:
+        body = body.args[0]
+    return neg if isinstance(body, ast.Name) and body.id == p else None
+
+
+def _option_table(repo: Repo, f, mode_vars):
+    """{key: (Mode attribute, negated, row)} when f transfers the options in a loop over a table of (key, attribute, conversion) rows:
+         for key, attribute, convert in TABLE:
+             if key in config: setattr(mode, attribute, convert(config[key]))
+       None when there is no such loop"""
+    m = f.module
+    for lp in [x for x in body_nodes(f.node) if isinstance(x, ast.For)]:
+        if not (isinstance(lp.target, ast.Tuple) and len(lp.target.elts) == 3 and all(isinstance(e, ast.Name) for e in lp.target.elts)):
+            continue
+        tbl = lp.iter
+        if isinstance(tbl, ast.Name):
+            sts = m.globals_assigned.get(tbl.id, [])
+            tbl = sts[0].value if len(sts) == 1 and isinstance(sts[0], (ast.Assign, ast.AnnAssign)) else None
+        if not isinstance(tbl, (ast.Tuple, ast.List)):
+            continue
+        # the body: exactly `if <k> in <config>: setattr(<mode>, <a>, <c>(<config>[<k>]))` with k, a, c the loop variables in some order
+        if len(lp.body) != 1 or not isinstance(lp.body[0], ast.If) or lp.body[0].orelse or len(lp.body[0].body) != 1:
+            continue
+        test, act = lp.body[0].test, lp.body[0].body[0]
+        if not (isinstance(test, ast.Compare) and len(test.ops) == 1 and isinstance(test.ops[0], ast.In) and isinstance(test.left, ast.Name) and "config" in norm(test.comparators[0])):
+            continue
+        if not (isinstance(act, ast.Expr) and isinstance(act.value, ast.Call) and norm(act.value.func) == "setattr" and len(act.value.args) == 3):
+            continue
+        tgt, a_, val = act.value.args
+        if not (isinstance(tgt, ast.Name) and tgt.id in mode_vars and isinstance(a_, ast.Name)):
+            continue
+        if not (isinstance(val, ast.Call) and isinstance(val.func, ast.Name) and len(val.args) == 1 and isinstance(val.args[0], ast.Subscript) and norm(val.args[0].value) == norm(test.comparators[0]) and norm(val.args[0].slice) == test.left.id):
+            continue
+        names = [e.id for e in lp.target.elts]
+        if len({test.left.id, a_.id, val.func.id}) != 3 or not {test.left.id, a_.id, val.func.id} <= set(names):
+            continue
+        ki, ai, ci = names.index(test.left.id), names.index(a_.id), names.index(val.func.id)
+        out = {}
+        for row in tbl.elts:
+            if not (isinstance(row, (ast.Tuple, ast.List)) and len(row.elts) == 3 and isinstance(row.elts[ki], ast.Constant) and isinstance(row.elts[ai], ast.Constant)):
+                return None
+            out[row.elts[ki].value] = (row.elts[ai].value, _conversion_polarity(repo, m, row.elts[ci]), row)
+        return out
+    return None
 
 
 def mode_table(repo: Repo, rep):
@@ -272,8 +342,21 @@ def mode_table(repo: Repo, rep):
         for t in n.ast.targets:
             if isinstance(t, ast.Attribute) and isinstance(t.value, ast.Name) and t.value.id in mode_vars:
                 found.setdefault(t.attr, []).append(n)
+    table = _option_table(repo, f, mode_vars)
     for key, (field, neg) in MODE_KEYS.items():
         ns = found.get(field, [])
+        if not ns and table is not None and key in table:
+            # the same transfer written as data: `for key, attribute, convert in <table>: if key in config: setattr(mode, attribute, convert(config[key]))`
+            attr, negated, row = table[key]
+            if attr != field:
+                rep.violation("R-MODE-TABLE", f, row, f"the black option `{key}` is transferred to Mode.{attr}, not Mode.{field}", construct=f"missing:{key}")
+            elif negated is None:
+                rep.violation("R-MODE-TABLE", f, row, f"Mode.{field} is set from `{short(row, 60)}`, not from config[{key!r}] itself (conversion not understood)", construct=f"src:{key}")
+            elif negated != neg:
+                rep.violation("R-MODE-TABLE", f, row, f"Mode.{field} gets config[{key!r}] with the wrong polarity", construct=f"polarity:{key}")
+            else:
+                rep.ok("R-MODE-TABLE", f, row, f"{key} -> Mode.{field} ({'negated' if neg else 'direct'}), row of the option table")
+            continue
         if not ns:
             rep.violation("R-MODE-TABLE", f, f.node, f"the black option `{key}` is not transferred to Mode.{field}", construct=f"missing:{key}")
             continue
